@@ -381,6 +381,27 @@ impl C09 {
                         }
                         ctx.fact("operand_ranges_checked", 1);
                         let (s, e) = (r.start.raw, r.end.raw + 1);
+                        // the text an operand is located at, if it is a register name, names the register the operand holds
+                        let held = match nm {
+                            "rd" => d.rd,
+                            "rs1" => d.rs1,
+                            "rs2" => d.rs2,
+                            _ => None,
+                        };
+                        if let (Some(h), Some(written)) = (held, reg_from_name(&f.ti.slice(s, e))) {
+                            if h != written {
+                                out.push(
+                                    Violation::new(format!(
+                                        "operand {nm} of {:?} holds {} but is located at the text {:?}",
+                                        n.shown,
+                                        ABI[h as usize],
+                                        f.ti.slice(s, e)
+                                    ))
+                                    .with("entity", format!("operand:{nm}"))
+                                    .with("field", "register-text"),
+                                );
+                            }
+                        }
                         if stmt.is_some() && !in_span(f, s, e) {
                             out.push(
                                 Violation::new(format!(
